@@ -517,7 +517,11 @@ class Update(object):
                 prefix = prefix.get('prefix')
                 nlri_raw_hex += struct.pack('!I', path_id)
             masklen = prefix.split('/')[1]
-            ip_hex = struct.pack('!I', netaddr.IPNetwork(prefix).value)
+            network = netaddr.IPNetwork(prefix)
+            if network.version != 4:
+                # e.g. '::1/128' has a value that fits 32 bits: it must not end up in the IPv4 NLRI field
+                raise ValueError('not an IPv4 prefix: %s' % prefix)
+            ip_hex = struct.pack('!I', network.value)
             masklen = int(masklen)
             if 16 < masklen <= 24:
                 ip_hex = ip_hex[0:3]
